@@ -14,6 +14,7 @@
     then C04's [open_check]. *)
 From Coq Require Import List String Ascii NArith Bool Permutation.
 From MV Require Import Rec.Chain Rec.ChainProofs Rec.Crash Rec.CrashProofs.
+From MV Require Import Rec.JsonGrammar Rec.JsonGrammarProofs.
 Import ListNotations.
 
 (** *** Directory level *)
@@ -290,6 +291,79 @@ Theorem C11_classify_sound : forall loads : bytes -> option ublock,
 Proof. exact classify_sound. Qed.
 Print Assumptions C11_classify_sound.
 
+(** *** The necessary condition is a theorem about the JSON grammar
+
+    [Json] / [JsonStruct] ([Rec/JsonGrammar.v]): the text grammar of RFC 8259 (values,
+    objects with string keys, arrays, strings with escapes, numbers, literals, insignificant
+    white space); [JsonStruct]: the top-level value is an object or an array.  Every such
+    text satisfies [json_nec] — terminated string literals, balanced brackets closed at the
+    end, only white space after the value, no colon after a member-value string.  (A scalar
+    at top level, which [Json] allows, passes the scan alive but is not "accepting": the
+    loader of a user block needs an object, [parse_obj] refuses anything else.) *)
+Theorem C11_json_grammar_nec : forall t, JsonStruct t -> json_nec t = true.
+Proof. exact json_struct_nec. Qed.
+Print Assumptions C11_json_grammar_nec.
+
+Theorem C11_json_alive : forall t, Json t -> exists s, scan st0 t = Some s.
+Proof. exact json_alive. Qed.
+Print Assumptions C11_json_alive.
+
+(** The executable recogniser the check runs against the real [json.loads] is sound for
+    the grammar. *)
+Theorem C11_json_okb_sound : forall t, json_okb t = true -> Json t.
+Proof. exact json_okb_sound. Qed.
+Print Assumptions C11_json_okb_sound.
+
+Theorem C11_json_objb_sound : forall t, json_objb t = true -> JsonStruct t.
+Proof. exact json_objb_sound. Qed.
+Print Assumptions C11_json_objb_sound.
+
+(** Hence the classification of the torn commit write holds for EVERY loader that accepts
+    only RFC 8259 texts with an object (or array) at top level: that is the only premise
+    left about [json.loads] + [parse_obj].  (Python's [json.loads] also takes [NaN] /
+    [Infinity] / [-Infinity]; they need a capital [N] or [I], which no user-block text
+    contains — [no_NI] is evaluated on every text the check meets.) *)
+Theorem C11_commit_torn_classes_rfc : forall (loads : bytes -> option ublock),
+  (forall t u, loads t = Some u -> JsonStruct t) ->
+  forall u h e m,
+  wf_head u -> forallb plainb h = true -> 19 <= List.length h -> wf_ext e ->
+  let ot := encode_ub u None None in
+  let nt := encode_ub u (Some h) e in
+  let old := head1024 ++ ot ++ repeat nul m in
+  let new := head1024 ++ nt ++ [nul] in
+  List.length nt < List.length ot + m -> List.length nt < 1011 ->
+  forall k u1, loads nt = Some u1 ->
+  (k <= 13 + List.length (enc_pre u) ->
+   parse_block loads (torn k old new) = parse_block loads old) /\
+  (13 + List.length (enc_pre u) < k -> k < 13 + List.length nt ->
+   parse_block loads (torn k old new) = None) /\
+  (13 + List.length nt <= k -> parse_block loads (torn k old new) = Some u1).
+Proof. exact commit_torn_classes_rfc. Qed.
+Print Assumptions C11_commit_torn_classes_rfc.
+
+Theorem C11_create_torn_rfc : forall (loads : bytes -> option ublock),
+  (forall t u, loads t = Some u -> JsonStruct t) ->
+  forall u M, wf_head u ->
+  let t := encode_ub u None None in
+  List.length t < 1011 -> 13 + List.length t < M ->
+  forall u0, loads t = Some u0 ->
+  tears_ok None u0 (tears_of (parse_block loads) (z_old M) (z_new t)).
+Proof. exact create_tears_rfc. Qed.
+Print Assumptions C11_create_torn_rfc.
+
+Theorem C11_classify_sound_rfc : forall (loads : bytes -> option ublock),
+  (forall t u, loads t = Some u -> JsonStruct t) ->
+  forall k old new,
+  match classify k old new with
+  | TOld => parse_block loads (torn k old new) = parse_block loads old
+  | TNew => parse_block loads (torn k old new)
+            = parse_block loads (torn (List.length new) old new)
+  | TBad => parse_block loads (torn k old new) = None
+  | TUnknown => True
+  end.
+Proof. exact classify_sound_rfc. Qed.
+Print Assumptions C11_classify_sound_rfc.
+
 (** *** Non-vacuity *)
 
 Local Open Scope N_scope.
@@ -421,3 +495,19 @@ Example C11_nonvacuous_bytes :
     (encode_ub (MkHead (B "r") 0 (B "p") None) (Some (B "h")) (Some (false, B "m", B "s"))) =
   "{""record_uuid"": ""r"", ""patch_index"": 0, ""patch_uuid"": ""p"", ""prev_patch"": null, ""hdf5_hashsum"": ""h"", ""ub_exts"": {""ih5mf_v01"": {""is_stub_container"": false, ""manifest_uuid"": ""m"", ""manifest_hashsum"": ""s""}}}".
 Proof. vm_compute. repeat split. Qed.
+
+(** The grammar is inhabited by the user-block texts, and the recogniser separates the
+    torn texts of the example above. *)
+Example C11_nonvacuous_json :
+  JsonStruct (encode_ub x_head (Some x_hsh) None) /\
+  JsonStruct (encode_ub x_head None (Some (false, B "m", B "s"))) /\
+  map (fun s => (json_okb (B s), json_nec (B s)))
+      ["{}"; " { ""a"" : [true, null, -1.5e+3, ""x\u00e9\n""] } "; "[1,]"; "{""a"": ""b"": 1}";
+       "{""a"":1} x"; "null"; "{""a"": ""sha256:ab_exts"": {}}"; "{""a"": ""sha25""ub_exts"": {}}"]
+  = [(true, true); (true, true); (false, true); (false, false);
+     (false, false); (true, false); (false, false); (false, false)].
+Proof.
+  split; [apply json_objb_sound; vm_compute; reflexivity|].
+  split; [apply json_objb_sound; vm_compute; reflexivity|].
+  vm_compute. reflexivity.
+Qed.
